@@ -289,6 +289,10 @@ func genC07Script(r *rng, id string, cnt counters, emit func(line, out string)) 
 			return e
 		}
 	}
+	if e.dead && len(e.finds) > 0 {
+		e.find("C07", "Decoder mis-decodes blocks emitted by a parser of this module", "Decoder.WriteBlock",
+			fmt.Sprintf("kind=%s first=%s: %s", kind, e.finds[0].Property, e.finds[0].What))
+	}
 	if !e.dead {
 		res := e.step("flush")
 		emit("flush", res)
